@@ -1,34 +1,40 @@
 (* C02 — Every reported result is delivered exactly once, in order, never after stop/pause.
    Only statements; every proof is [exact <lemma of proofs/FetchProofs.v>] (+ tiny glue).
-   Model: model/Fetch.v.  [run Generic init evs] executes ANY list of events: worker output
-   becoming visible in any batching (W (Emit i k) / Finish / Fail), start_trial, resume_trial, and
-   polls of ANY id list with ANY decision list (CONTINUE / PAUSE / STOP per delivered result, each
-   with the number of reports the worker still writes before it is gone).
-   [runs_of t] = for every run of trial t, in order: (reported, delivered, how the tuner saw it end). *)
+   Model: model/Fetch.v.  [run bk init evs] executes ANY list of events: worker output becoming
+   visible in any batching (W (Emit i k) / Finish / Fail), start_trial, resume_trial, and polls of ANY
+   id list with ANY decision list (CONTINUE / PAUSE / STOP per delivered result, each with the number
+   of reports the worker still writes before it is gone).  bk = Generic: TrialBackend's poll logic
+   with LocalBackend's hooks; bk = Sim: SimulatorBackend.
+   [runs_of t] = for every run of trial t, in order: (reported, delivered, how the tuner saw it end);
+   the last element is the current run.  fin = Live: no decision taken, not seen completed/failed.
+
+   NOTE: Generic models LocalBackend._resume_trial WITH patch F-C02-1 (patches/F-C02-1.diff: what
+   std.out holds at the resume is counted as seen).  On a tree without it the driver reports the
+   known finding F-C02-1 (replay findings/C02-late-report-after-resume.json) and the model's
+   t_resume does not correspond; the statement that was proved of the unpatched code is kept in a
+   comment at the end. *)
 From Verif Require Import model.Base model.Fetch proofs.FetchProofs.
 From Coq Require Import Sorting.Sorted.
 
-(* Hypotheses of the positive theorems (good_ev, per event):
-   - only tuner-level events (no raw Fetch/PauseT/StopT, which are not what Tuner.run does);
-   - the worker time stamps inside one run do not decrease (fetch_status_results sorts by them);
-   - no report is written in the window between a PAUSE decision and the worker's end
-     (second component of the decision = 0 for PAUSE; any number is allowed for STOP).
-   The last hypothesis cannot be dropped: see c02_nothing_after_decision_refuted. *)
+Definition run_prefix_ok (r : list rep * list rep * fstat) : Prop :=
+  (exists k, snd (fst r) = firstn k (fst (fst r))) /\ (snd r = DoneOk -> snd (fst r) = fst (fst r)).
 
-(* generic poll-based logic + the tuner's skip rule: for every trial and every one of its runs, what
-   was delivered is a gap-free prefix of what that run reported (each once, in report order), and
-   the whole list when the tuner saw the run complete on its own (no decision taken for it). *)
-Theorem c02_prefix_once_ordered_partial :
+(* Hypotheses (good_ev, per event): only tuner-level events (what Tuner.run does; raw Fetch/PauseT/
+   StopT are for the unit-step correspondence), and the worker time stamps inside one run do not
+   decrease (fetch_status_results sorts a batch by them).  No hypothesis on reports written after
+   a decision. *)
+
+(* ------------------------------ generic poll-based logic ------------------------------------- *)
+(* for every trial and every one of its runs: delivered = gap-free prefix of reported (each once, in
+   report order); the whole list when the tuner saw the run complete on its own *)
+Theorem c02_prefix_once_ordered :
   forall evs st x, Forall good_ev evs -> run Generic init evs = (st, x) ->
-  forall i t, nth_error (trials st) i = Some t ->
-    Forall (fun r => (exists k, snd (fst r) = firstn k (fst (fst r))) /\
-                     (snd r = DoneOk -> snd (fst r) = fst (fst r))) (runs_of t).
+  forall i t, nth_error (trials st) i = Some t -> Forall run_prefix_ok (runs_of t).
 Proof. exact generic_prefix_once_ordered. Qed.
-Print Assumptions c02_prefix_once_ordered_partial.
-(* full statement (without the window hypothesis) is false of the faithful model: refuted below. *)
+Print Assumptions c02_prefix_once_ordered.
 
 (* after a resume (and at the start) delivery begins with the first report of the new run *)
-Theorem c02_after_resume_first_partial :
+Theorem c02_after_resume_first :
   forall evs st x, Forall good_ev evs -> run Generic init evs = (st, x) ->
   forall i t, nth_error (trials st) i = Some t ->
     Forall (fun r => snd (fst r) = [] \/
@@ -37,7 +43,55 @@ Proof.
   intros evs st x Hg F i t Hi. eapply Forall_impl; [|exact (generic_prefix_once_ordered evs st x Hg F i t Hi)].
   intros r Hr. apply run_ok_first. exact Hr.
 Qed.
-Print Assumptions c02_after_resume_first_partial.
+Print Assumptions c02_after_resume_first.
+
+(* nothing is delivered for a run after the STOP/PAUSE decision (or after it was seen completed /
+   failed): whatever happens afterwards — further worker output, polls of any ids, resumes — the
+   records of all runs of the trial up to and including that run stay exactly as they were; later
+   runs are appended.  Together with c02_prefix_once_ordered (each later run only gets a prefix of
+   its OWN reports) nothing a run writes after the decision is ever delivered, also not after a
+   resume. *)
+Theorem c02_nothing_after_decision :
+  forall evs1 evs2 st1 st2 x, Forall good_ev evs1 -> Forall good_ev evs2 ->
+  run Generic init evs1 = (st1, None) -> run Generic st1 evs2 = (st2, x) ->
+  forall i t1, nth_error (trials st1) i = Some t1 -> fin t1 <> Live ->
+    exists t2 m, nth_error (trials st2) i = Some t2 /\ runs_of t2 = runs_of t1 ++ m.
+Proof. exact generic_decided_run_frozen. Qed.
+Print Assumptions c02_nothing_after_decision.
+
+(* ------------------------------ simulator backend --------------------------------------------- *)
+(* Hypothesis [run_cov]: only tuner-level events, and every poll covers all running trials (what
+   Tuner.run does: it polls running_trials_ids; SimulatorBackend drops the results of trials that are
+   not polled).  It is implied by the model's boolean check run_disc, which the driver evaluates on
+   every whole run of the real Tuner. *)
+Theorem c02_sim_disc_implies_cov :
+  forall evs, run_disc Sim init evs = true -> run_cov init evs.
+Proof. intros evs. apply run_disc_cov. Qed.
+Print Assumptions c02_sim_disc_implies_cov.
+
+Theorem c02_sim_prefix_once_ordered :
+  forall evs st x, run_cov init evs -> run Sim init evs = (st, x) ->
+  forall i t, nth_error (trials st) i = Some t -> Forall run_prefix_ok (runs_of t).
+Proof. exact sim_prefix_once_ordered. Qed.
+Print Assumptions c02_sim_prefix_once_ordered.
+
+(* full statement, no hypothesis on the reports processed inside the blocking stop/pause window:
+   once a run is decided its record never changes (also not after a resume), and every run — in
+   particular every run after a resume — only ever gets a gap-free prefix of its own reports *)
+Theorem c02_sim_nothing_after_decision :
+  forall evs1 evs2 st1 st2 x,
+  run_cov init evs1 -> run Sim init evs1 = (st1, None) ->
+  run_cov st1 evs2 -> run Sim st1 evs2 = (st2, x) ->
+  forall i t1, nth_error (trials st1) i = Some t1 -> fin t1 <> Live ->
+    exists t2 m, nth_error (trials st2) i = Some t2 /\ runs_of t2 = runs_of t1 ++ m /\
+                 Forall run_prefix_ok (runs_of t2).
+Proof.
+  intros evs1 evs2 st1 st2 x G1 F1 G2 F2 i t1 Hi N.
+  destruct (sim_decided_run_frozen evs1 evs2 st1 st2 x G1 F1 G2 F2 i t1 Hi N) as (t2 & m & Hi2 & Hm).
+  exists t2, m. split; [exact Hi2|]. split; [exact Hm|].
+  apply sinv_runs_ok. exact (run_SSI evs2 st1 st2 x (run_SSI evs1 init st1 None init_SSI G1 F1) G2 F2 i t2 Hi2).
+Qed.
+Print Assumptions c02_sim_nothing_after_decision.
 
 (* tabular simulator: a resumed job replays exactly the rows above the level it was paused at
    (checkpointing), in table order; without checkpointing, or if the level is unknown, all rows *)
@@ -49,24 +103,20 @@ Theorem c02_after_resume_first_tabular :
 Proof. exact tab_results_spec. Qed.
 Print Assumptions c02_after_resume_first_tabular.
 
-(* "Nothing a trial reports after the scheduler decided to pause it is ever delivered, not even after
-   the trial is resumed; after a resume delivery continues with the first report of the new run":
-   FALSE for the generic poll-based logic. Witness (the minimal one; replayed on the real code as
-   findings/C02-late-report-after-resume.json): run 1 of trial 0 reports a, b; a is visible and gets
-   PAUSE; the worker writes b before it is gone; the trial is resumed with run 2 = [c]; c becomes
-   visible; the poll delivers b and then c: the delivered list of run 2 is [b; c]. *)
-Theorem c02_nothing_after_decision_refuted :
+(* non-vacuity 1: the event list that refuted the property for the unpatched code (run 1 of trial 0
+   reports a, b; a is visible and gets PAUSE; the worker writes b before it is gone; resume with run
+   2 = [c]; c becomes visible; poll) satisfies the hypotheses, and b is not delivered *)
+Example c02_late_report_dropped :
   exists evs st t,
     Forall (fun e => tuner_ev e = true) evs /\
     Forall (fun e => match e with Start reps | Resume _ reps => StronglySorted rle reps | _ => True end) evs /\
     run Generic init evs = (st, None) /\ nth_error (trials st) 0%nat = Some t /\
     runs_of t = [ ([(1, 0%Z); (2, 1%Z)], [(1, 0%Z)], Decided);
-                  ([(3, 100%Z)], [(2, 1%Z); (3, 100%Z)], Live) ]%Q.
-Proof. exact late_report_witness. Qed.
-Print Assumptions c02_nothing_after_decision_refuted.
+                  ([(3, 100%Z)], [(3, 100%Z)], Live) ]%Q.
+Proof. exact late_report_dropped. Qed.
 
-(* non-vacuity: a run with two trials, a skipped result, a pause without window report, a resume,
-   a STOP with a window report and a completion satisfies the hypotheses *)
+(* non-vacuity 2: two trials, a skipped result, a pause, a resume, a STOP with a window report and
+   a completion *)
 Example c02_example :
   let evs := [ Start [(1, 0%Z); (2, 1%Z); (3, 2%Z)]; Start [(1, 10%Z); (4, 11%Z)];
                W (Emit 0%nat 2%nat); W (Finish 1%nat);
@@ -77,3 +127,14 @@ Example c02_example :
   exists st, run Generic init evs = (st, None) /\
              out st = [(0%nat, 0%Z); (1%nat, 10%Z); (1%nat, 11%Z); (0%nat, 3%Z)].
 Proof. exact example_run. Qed.
+
+(* Statement proved of the code BEFORE patch F-C02-1 (t_resume left [seen] unchanged), kept for the
+   record; the positive theorems then needed the extra hypothesis "no report is written between a
+   PAUSE decision and the end of the worker":
+   Theorem c02_nothing_after_decision_refuted :
+     exists evs st t,
+       Forall (fun e => tuner_ev e = true) evs /\
+       Forall (fun e => match e with Start reps | Resume _ reps => StronglySorted rle reps | _ => True end) evs /\
+       run Generic init evs = (st, None) /\ nth_error (trials st) 0 = Some t /\
+       runs_of t = [ ([(1, 0); (2, 1)], [(1, 0)], Decided);  ([(3, 100)], [(2, 1); (3, 100)], Live) ].
+   (same event list as in c02_late_report_dropped; replay: findings/C02-late-report-after-resume.json) *)
